@@ -119,6 +119,9 @@ def b_int(I, v=0):
         return int(v)
     if is_boolv(v):
         return z3.If(v, 1, 0)
+    if is_z3(v) and v.sort() == z3.RealSort():
+        # int() truncates towards zero; reals stand for floats (machine rounding not modelled)
+        return z3.If(v >= 0, z3.ToInt(v), -z3.ToInt(-v))
     raise Unsupported("int() of %r" % (v,))
 
 
